@@ -15,14 +15,28 @@ static int peelMode(const char *inFile, const char *outFile)
     out.line(std::string("{\"chunk\":50,\"recs\":["));
     int n, m; bool first = true;
     while (in >> n >> m) {
+        // a negative n: explicit node sizes follow the edges ("-n m (u v)*m (w h)*n")
+        bool sized = n < 0; if (sized) n = -n;
         std::vector<std::pair<int, int> > es(m);
         for (auto &e : es) in >> e.first >> e.second;
+        std::vector<std::pair<int, int> > sz(n, std::make_pair(4, 4));
+        if (sized) for (auto &q : sz) in >> q.first >> q.second;
+        int maxDim = 4; for (auto &q : sz) maxDim = std::max(maxDim, std::max(q.first, q.second));
         vt::J j; j.obj().k("n").i(n).k("edges").arr(); for (auto &e : es) j.arr().i(e.first).i(e.second).end(); j.end();
         bool thrown = false; std::string what;
         try {
             Graph G;
             std::vector<Node_SP> ns; std::map<id_type, int> ext;
-            for (int i = 0; i < n; i++) { Node_SP nd = G.addNode(10.0 * (i % 5), 10.0 * (i / 5), 4, 4); ns.push_back(nd); ext[nd->id()] = i + 1; }
+            // node sizes: a third of the graphs uniform 4x4, the others with narrow and wide nodes mixed (derived from the input, so that runs are repeatable)
+            bool uniform = !sized && (n + 2 * m) % 3 == 0;
+            static const double WS[4] = {4, 4, 8, 20}, HS[2] = {4, 8};
+            for (int i = 0; i < n; i++) {
+                double w = uniform ? 4 : WS[(i * 7 + n * 3 + m) % 4], h = uniform ? 4 : HS[(i + m) % 2];
+                if (sized) { w = sz[i].first; h = sz[i].second; }
+                Node_SP nd = G.addNode(10.0 * (i % 5), 10.0 * (i / 5), w, h); ns.push_back(nd); ext[nd->id()] = i + 1;
+            }
+            static const CardinalDir GROW[4] = {CardinalDir::SOUTH, CardinalDir::EAST, CardinalDir::NORTH, CardinalDir::WEST};
+            CardinalDir grow = GROW[(n + m) % 4];
             for (auto &e : es) G.addEdge(ns[e.first - 1], ns[e.second - 1]);
             // connected components
             std::vector<Graph_SP> comps = G.getConnComps();
@@ -41,9 +55,9 @@ static int peelMode(const char *inFile, const char *outFile)
             for (Tree_SP t : trees) {
                 Graph_SP tg = t->underlyingGraph();
                 j.obj().k("root").i(ext.at(t->getRootNodeID())).k("g"); gJson(j, *tg, ext);
-                t->symmetricLayout(CardinalDir::SOUTH, 4, 8);
+                t->symmetricLayout(grow, 4, sized ? maxDim + 8 : uniform ? 8 : 28);      // rankSep is a centre-to-centre distance: it has to exceed the largest node extent
                 j.k("pos").arr();
-                for (auto &kv : tg->getNodeLookup()) { Avoid::Point c = kv.second->getCentre(); j.arr().i(ext.at(kv.first)).i(llround(c.x * 16)).i(llround(c.y * 16)).end(); }
+                for (auto &kv : tg->getNodeLookup()) { Avoid::Point c = kv.second->getCentre(); dimensions d = kv.second->getDimensions(); j.arr().i(ext.at(kv.first)).i(llround(c.x * 16)).i(llround(c.y * 16)).i(llround(d.first * 16)).i(llround(d.second * 16)).end(); }
                 j.end().end();
             }
             j.end();
